@@ -45,7 +45,7 @@ class C14(Prop):
             clients.append({"init": init, "ops": gen_curve_ops(g, g.randint(1, 15 if tier == "quick" else 25), names)})
         total = sum(len(c["ops"]) for c in clients)
         schedule = [st.sched.randrange(nclients) for _ in range(total * 2)]
-        sc = {"clients": clients, "schedule": schedule}
+        sc = {"clients": clients, "schedule": schedule, "share_arrays": g.random() < 0.3}
         if nclients > 1 and ((tier == "thorough" and st.sched.random() < 0.4) or (tier == "quick" and st.sched.random() < 0.03)):
             sc["line"] = {"seed": st.sched.randrange(1 << 30), "prob": st.sched.choice([0.005, 0.02, 0.1])}
         return sc
@@ -68,7 +68,8 @@ class C14(Prop):
         Oracle: every client's own model/view checks hold after each of its operations (non-interference)."""
         res = Result()
         results = [Result() for _ in sc["clients"]]
-        ms = [CurveMachine(c["init"], results[i], tag="c%d" % i) for i, c in enumerate(sc["clients"])]
+        pool = {} if sc.get("share_arrays") else None
+        ms = [CurveMachine(c["init"], results[i], tag="c%d" % i, pool=pool) for i, c in enumerate(sc["clients"])]
         for m in ms:
             m.hazard_names = self.hazard(sc)
         ls = LineScheduler(sc["line"]["seed"], sc["line"]["prob"])
@@ -99,7 +100,10 @@ class C14(Prop):
         if sc.get("line") and len(sc["clients"]) > 1:
             return self.run_line_level(sc)
         res = Result()
-        ms = [CurveMachine(c["init"], res, tag="c%d" % i) for i, c in enumerate(sc["clients"])]
+        pool = {} if sc.get("share_arrays") else None
+        if pool is not None:
+            res.count("caller-arrays-shared")
+        ms = [CurveMachine(c["init"], res, tag="c%d" % i, pool=pool) for i, c in enumerate(sc["clients"])]
         for m in ms:
             m.hazard_names = self.hazard(sc)
         pcs = [0] * len(ms)
